@@ -124,6 +124,13 @@ def run(tier, seed):
                 ab = [rnd.choice(words)] + [rnd.choice(classes) for _ in range(rnd.randint(0, 5))]
                 lines.append((ab, concretize(ab)))
         cases.append(case_of("r%d" % i, lines, rnd))
+    # a sample of the same cases through the real TCP server (one socket per session): a panic in a
+    # handler ends the connection thread, which the client sees as a missing reply
+    def tcp_ok(c):
+        return all("\n" not in s.get("line", "") and "\r" not in s.get("line", "") for s in c["steps"])
+    pool = [c for c in cases if tcp_ok(c)]
+    net = [dict(c, id="tcp_" + c["id"], transport="tcp") for c in rnd.sample(pool, min(len(pool), 300 if tier == "quick" else 6000))]
+    cases += net
     by_id = {c["id"]: {"id": c["id"], "lines": [s["line"][:300] for s in c["steps"]]} for c in cases}
     raws = common.run_cases_parallel("seq", cases, wd, procs=14)
     norm_path = os.path.join(wd, "norm.ndjson")
@@ -140,7 +147,7 @@ def run(tier, seed):
                 "by a probe set/get from another client; plus seeded sequences of 1-4 lines with up to "
                 "5 arguments and random byte strings. Distinct = distinct concrete lines.",
         "samples": [c["steps"][7]["line"][:120] for c in cases[::max(1, len(cases) // 12)]],
-        "states": distinct, "transitions": gen,
+        "states": distinct, "transitions": gen, "cases_over_tcp": len(net),
         "traces_validated_against_impl": outv["runs"], "events_validated": outv["events"],
         "exhaustive": False,
     })
